@@ -5,11 +5,14 @@
     in deployment arithmetic); the deposit is sized by the conserved total; the distribution step
     hands out the whole pool of reserved tickets (used guarantees + leftover re-draws) unless every
     ticket already wins, each hand-out marking one existing non-winning ticket ([C12_pool]; the
-    endpoint-level count min(base + reserved, n) is [C03_final]).  Not proved: that the recorded total
-    of reserved tickets equals the sum of the listed holders' reservations (an invariant of the
-    allocation / blacklist bookkeeping; compared on every run by the correspondence check). *)
+    endpoint-level count min(base + reserved, n) is [C03_final]).  Along every set-up history from a
+    deployment (allocation, deposit, confirmations, blacklisting, refunds, un-blacklisting, pause and
+    configuration transactions in any order) the total stays the number configured at deployment
+    ([C12_total_from_deployment]) and the recorded total of reserved tickets equals the sum of the
+    listed holders' reservations, the list is duplicate-free, a blacklisted participant is not listed
+    and an unlisted participant reserves nothing ([C12_counter_is_sum]). *)
 From LP Require Import Proofs.Tactics Proofs.Loop Proofs.Shuffle Proofs.Gates Proofs.Frames Proofs.Settle Proofs.Reserve Proofs.GenTable
-  Proofs.GuaranteedLoop Proofs.Leftover Proofs.Examples.
+  Proofs.GuaranteedLoop Proofs.Leftover Proofs.Examples Proofs.SetupGt Proofs.SetupVested.
 Open Scope N_scope.
 
 Theorem C12_add_v1 : forall e w l w',
@@ -70,6 +73,20 @@ Theorem C12_pool : forall (H : list N -> list N) v2 b w o w1 o1 bb,
   nr_winning (st w1) = nrw /\ last_ticket_id (st w1) = last.
 Proof. exact gt_distribution_counts. Qed.
 
+(** ** along the set-up history *)
+Theorem C12_total_from_deployment : forall (H : list N -> list N) v w, guar v -> setup_reach_gt H v w ->
+  exists e lp tpt0 ptok price0 nrw conf ws claim x s,
+    deploy v e lp tpt0 ptok price0 nrw conf ws claim x = Ok s /\ reserve_total (st w) = nrw.
+Proof. exact setup_reach_gt_total. Qed.
+
+Theorem C12_counter_is_sum : forall (H : list N -> list N) v w, guar v -> setup_reach_gt H v w ->
+  let s := st w in
+  total_guaranteed s = total_reserved (vflag v) s /\ NoDup (gt_users s) /\
+  (forall u, In u (gt_users s) -> range s u <> None) /\
+  (forall u, ~ In u (gt_users s) -> reserved (vflag v) s u = 0) /\
+  (forall u, blacklisted s u = true -> range s u <> None /\ ~ In u (gt_users s)).
+Proof. intros H v w Hv Hr. exact (lp_res _ _ (setup_reach_gt_LpInv H v w Hv Hr)). Qed.
+
 Example C12_nonvacuous :
   match deploy Gt1 (mkenv 1 0 0 []) 1 100 0 1000 2 10 20 30 x0 with
   | Ok s0 =>
@@ -93,6 +110,8 @@ Print Assumptions C12_unblacklist_v2.
 Print Assumptions C12_unblacklist_v1_no_panic.
 Print Assumptions C12_unblacklist_v2_no_panic.
 Print Assumptions C12_deposit_size.
+Print Assumptions C12_total_from_deployment.
+Print Assumptions C12_counter_is_sum.
 Print Assumptions C12_release_profiles.
 Print Assumptions C12_pool.
 Print Assumptions C12_nonvacuous.
